@@ -185,7 +185,8 @@ Definition al_add_new (k v : N) (l : list (N * N)) := if al_has k l then l else 
 
 (* state inside an operation *)
 Record ost := mkOst { o_live : list req; o_zk : list N; o_upd : list (N * N); o_rev : list (N * N);
-                      o_forced : bool }.
+                      o_forced : bool;    (* every sort so far had a forced result *)
+                      o_oc : bool }.      (* overcommit resolution was entered (statistics only) *)
 
 (* zoneMove (zoneRemove + zoneAssign with journal.delete / journal.assign) of a live request *)
 Definition zone_move (z : N) (id : N) (st : ost) : ost :=
@@ -194,7 +195,7 @@ Definition zone_move (z : N) (id : N) (st : ost) : ost :=
   | Some r =>
     if (r_zone r =? z)%N then st                              (* "useless move" *)
     else mkOst (move_req id z (o_live st)) (zk_add z (o_zk st))
-               (al_set id z (o_upd st)) (al_add_new id (r_zone r) (o_rev st)) (o_forced st)
+               (al_set id z (o_upd st)) (al_add_new id (r_zone r) (o_rev st)) (o_forced st) (o_oc st)
   end.
 
 (* ------------------------------------------------------------------ sorting *)
@@ -284,7 +285,8 @@ Fixpoint shrink_all (oc : list (N * Z)) (prio : Z) (types : N) (st : ost) (moved
 
 Definition recheck (nodes : N) (st : ost) : list (N * Z) * ost :=
   let '(oc, f) := check_overcommit (o_live st) (o_zk st) nodes in
-  (oc, mkOst (o_live st) (o_zk st) (o_upd st) (o_rev st) (o_forced st && f)).
+  (oc, mkOst (o_live st) (o_zk st) (o_upd st) (o_rev st) (o_forced st && f)
+             (o_oc st || match oc with [] => false | _ => true end)).
 
 (* the loops over expandTypes (inner) and allowedPrios (outer) of defaultHandleOvercommit;
    inl = resolved, inr = still overcommitted *)
@@ -395,24 +397,24 @@ Definition ensure_normal (zone rtypes : N) (strict : bool) : enres :=
                  else if mnz (N.land normal tmHBM) then tmHBM else 0%N in
     if (types =? 0)%N then ENErr else ensure_loop (S (length ns)) zone types rtypes.
 
-Inductive cres := COk (st : ost) | CErr (l : list req) (zk : list N) | CFuel.
+Inductive cres := COk (st : ost) | CErr (l : list req) (zk : list N) (oc : bool) | CFuel.
 
 Definition alloc_core (s : state) (r : req) : cres :=
   match validate_request (live s) r with
-  | None => CErr (live s) (zkeys s)
+  | None => CErr (live s) (zkeys s) false
   | Some ty =>
     match find_initial_zone (r_aff r) ty (r_strict r) with
-    | None => CErr (live s) (zkeys s)
+    | None => CErr (live s) (zkeys s) false
     | Some z0 =>
       match ensure_normal z0 ty (r_strict r) with
       | ENFuel => CFuel
-      | ENErr => CErr (live s) (zkeys s)
+      | ENErr => CErr (live s) (zkeys s) false
       | ENOk z1 ty1 =>
         let r1 := set_zone z1 (set_types ty1 ty r) in
-        let st := mkOst (live s ++ [r1]) (zk_add z1 (zkeys s)) [(r_id r, z1)] [(r_id r, 0%N)] true in
+        let st := mkOst (live s ++ [r1]) (zk_add z1 (zkeys s)) [(r_id r, z1)] [(r_id r, 0%N)] true false in
         match handle_overcommit z1 st with
         | HOk st' => COk st'
-        | HFail st' => let '(l, zk) := revert (Some (r_id r)) st' in CErr l zk
+        | HFail st' => let '(l, zk) := revert (Some (r_id r)) st' in CErr l zk true
         | HFuel => CFuel
         end
       end
@@ -422,8 +424,9 @@ Definition alloc_core (s : state) (r : req) : cres :=
 (* ------------------------------------------------------------------ the public operations *)
 
 Inductive rkind := KOk | KErr | KFuel | KUnmodelled.
-Record result := mkRes { rs_kind : rkind; rs_zone : N; rs_upd : list (N * N); rs_forced : bool }.
-Definition r_err : result := mkRes KErr 0 [] true.
+Record result := mkRes { rs_kind : rkind; rs_zone : N; rs_upd : list (N * N); rs_forced : bool;
+                         rs_oc : bool }.     (* overcommit resolution was entered *)
+Definition r_err : result := mkRes KErr 0 [] true false.
 
 Record offer := mkOffer { of_ver : Z; of_req : req; of_upd : list (N * N) }.
 
@@ -437,9 +440,9 @@ Definition allocate (s : state) (r : req) : state * result :=
   match alloc_core s r with
   | COk st =>
     (mkState (o_live st) (cleanup (o_live st) (o_zk st)) (bump (fx_F1a fx) (version s)),
-     mkRes KOk (zone_of (r_id r) (o_live st)) (al_del (r_id r) (o_upd st)) (o_forced st))
-  | CErr l zk => (mkState l (cleanup l zk) (version s), r_err)
-  | CFuel => (s, mkRes KFuel 0 [] true)
+     mkRes KOk (zone_of (r_id r) (o_live st)) (al_del (r_id r) (o_upd st)) (o_forced st) (o_oc st))
+  | CErr l zk oc => (mkState l (cleanup l zk) (version s), mkRes KErr 0 [] true oc)
+  | CFuel => (s, mkRes KFuel 0 [] true false)
   end.
 
 (* GetOffer = allocate + revertJournal; the offer keeps the request object as allocate left it *)
@@ -449,10 +452,10 @@ Definition get_offer (s : state) (r : req) : state * result * option offer :=
     let '(l, zk) := revert (Some (r_id r)) st in
     let rq := match find_req (r_id r) (o_live st) with Some q => q | None => r end in
     (mkState l (clean_if (fx_F2g fx) l zk) (version s),
-     mkRes KOk (zone_of (r_id r) (o_live st)) (al_del (r_id r) (o_upd st)) (o_forced st),
+     mkRes KOk (zone_of (r_id r) (o_live st)) (al_del (r_id r) (o_upd st)) (o_forced st) (o_oc st),
      Some (mkOffer (version s) rq (o_upd st)))
-  | CErr l zk => (mkState l (clean_if (fx_F2g fx) l zk) (version s), r_err, None)
-  | CFuel => (s, mkRes KFuel 0 [] true, None)
+  | CErr l zk oc => (mkState l (clean_if (fx_F2g fx) l zk) (version s), mkRes KErr 0 [] true oc, None)
+  | CFuel => (s, mkRes KFuel 0 [] true false, None)
   end.
 
 (* Offer.Commit: replay the recorded updates; nothing is re-checked except the version *)
@@ -467,12 +470,12 @@ Definition commit_apply (o : offer) (l : list req) (zk : list N) : list req * li
 
 Definition commit (s : state) (o : offer) : state * result :=
   if negb (of_ver o =? version s) then (s, r_err)
-  else if is_live (r_id (of_req o)) (live s) then (s, mkRes KUnmodelled 0 [] true)
+  else if is_live (r_id (of_req o)) (live s) then (s, mkRes KUnmodelled 0 [] true false)
   else
     let '(l, zk) := commit_apply o (live s) (zkeys s) in
     (mkState l (cleanup l zk) (version s + 1),
      mkRes KOk (match al_get (r_id (of_req o)) (of_upd o) with Some z => z | None => 0%N end)
-           (al_del (r_id (of_req o)) (of_upd o)) true).
+           (al_del (r_id (of_req o)) (of_upd o)) true false).
 
 Inductive vres := VDone | VErr | VGo (nodes types : N).
 
@@ -492,7 +495,7 @@ Definition realloc (s : state) (id nodes types : N) : state * result :=
     let fin (l : list req) (zk : list N) (ok : bool) :=
       mkState l (clean_if (fx_F2r fx) l zk) (bump (fx_F1r fx && ok) (version s)) in
     match validate_realloc r nodes types with
-    | VDone => (fin (live s) (zkeys s) true, mkRes KOk (r_zone r) [] true)
+    | VDone => (fin (live s) (zkeys s) true, mkRes KOk (r_zone r) [] true false)
     | VErr => (fin (live s) (zkeys s) false, r_err)
     | VGo nodes' types' =>
       let base := N.lor (r_zone r) nodes' in
@@ -500,14 +503,14 @@ Definition realloc (s : state) (id nodes types : N) : state * result :=
       if (nn =? 0)%N then (fin (live s) (zkeys s) false, r_err)
       else
         let target := N.lor base nn in
-        let st := zone_move target id (mkOst (live s) (zkeys s) [] [] true) in
+        let st := zone_move target id (mkOst (live s) (zkeys s) [] [] true false) in
         match handle_overcommit target st with
         | HOk st' =>
           let l := map (fun q => if (r_id q =? id)%N
                                  then set_types (N.lor (r_types q) nt) (N.lor (r_asked q) types') q else q) (o_live st') in
-          (fin l (o_zk st') true, mkRes KOk (zone_of id l) (al_del id (o_upd st')) (o_forced st'))
-        | HFail st' => let '(l, zk) := revert None st' in (fin l zk false, r_err)
-        | HFuel => (s, mkRes KFuel 0 [] true)
+          (fin l (o_zk st') true, mkRes KOk (zone_of id l) (al_del id (o_upd st')) (o_forced st') (o_oc st'))
+        | HFail st' => let '(l, zk) := revert None st' in (fin l zk false, mkRes KErr 0 [] true true)
+        | HFuel => (s, mkRes KFuel 0 [] true false)
         end
     end
   end.
@@ -515,7 +518,7 @@ Definition realloc (s : state) (id nodes types : N) : state * result :=
 Definition release (s : state) (id : N) : state * result :=
   if is_live id (live s) then
     let l := drop_req id (live s) in
-    (mkState l (cleanup l (zkeys s)) (version s + 1), mkRes KOk 0 [] true)
+    (mkState l (cleanup l (zkeys s)) (version s + 1), mkRes KOk 0 [] true false)
   else (s, r_err).
 
 (* ------------------------------------------------------------------ histories *)
@@ -608,42 +611,45 @@ Definition compare_step (w' : world) (res : result) (ob : obs) : option N :=
 
 (* first difference of one history: (op index, code); code 0 (order not forced) ends the
    comparison of this history without counting as a difference *)
-Fixpoint check_history (i : nat) (w : world) (ops : list op) (obs_l : list obs) : option (nat * N) :=
+Fixpoint check_history (i : nat) (w : world) (ops : list op) (obs_l : list obs) (noc : nat) : option (nat * N) * nat :=
   match ops, obs_l with
   | o :: ops', ob :: obs' =>
-    if ob_skip ob then check_history (S i) (mkWorld (w_state w) (w_offers w ++ [None])) ops' obs'
+    if ob_skip ob then check_history (S i) (mkWorld (w_state w) (w_offers w ++ [None])) ops' obs' noc
     else
       let '(w', res) := step w o in
+      let noc' := if rs_oc res then S noc else noc in
       match compare_step w' res ob with
-      | Some c => Some (i, c)
-      | None => check_history (S i) w' ops' obs'
+      | Some c => (Some (i, c), noc')
+      | None => check_history (S i) w' ops' obs' noc'
       end
-  | _, _ => None
+  | _, _ => (None, noc)
   end.
 
 End Nodes.
 
 (* one case = node set + history + observations; result: (case index, op index, code) of every
-   case with a difference, and the number of histories cut short because an order was not forced *)
+   case with a difference, the number of histories cut short because an order was not forced, and
+   the number of operations in which overcommit resolution was entered (statistics) *)
 Definition case := (list node * list op * list obs)%type.
 
-Definition run_case (fx : fixes) (c : case) : option (nat * N) :=
+Definition run_case (fx : fixes) (c : case) : option (nat * N) * nat :=
   let '(ns, ops, obs_l) := c in
-  check_history ns (default_expand ns) fx 0 (init_world) ops obs_l.
+  check_history ns (default_expand ns) fx 0 (init_world) ops obs_l 0.
 
-Fixpoint mismatches_from (fx : fixes) (i : nat) (cs : list case) : list (nat * nat * N) * nat :=
+Fixpoint mismatches_from (fx : fixes) (i : nat) (cs : list case) : list (nat * nat * N) * nat * nat :=
   match cs with
-  | [] => ([], O)
+  | [] => ([], O, O)
   | c :: cs' =>
-    let '(ms, nf) := mismatches_from fx (S i) cs' in
-    match run_case fx c with
-    | None => (ms, nf)
-    | Some (_, 0%N) => (ms, S nf)
-    | Some (k, code) => ((i, k, code) :: ms, nf)
+    let '(ms, nf, noc) := mismatches_from fx (S i) cs' in
+    let '(r, n) := run_case fx c in
+    match r with
+    | None => (ms, nf, (noc + n)%nat)
+    | Some (_, 0%N) => (ms, S nf, (noc + n)%nat)
+    | Some (k, code) => ((i, k, code) :: ms, nf, (noc + n)%nat)
     end
   end.
 
-Definition mismatches (cs : list case) : list (nat * nat * N) * nat := mismatches_from src_fixes 0 cs.
+Definition mismatches (cs : list case) : list (nat * nat * N) * nat * nat := mismatches_from src_fixes 0 cs.
 
 (* ------------------------------------------------------------------ Z-literal interface for the generated case files *)
 
